@@ -62,6 +62,7 @@ void ext4_obligations(void);
 void ext4_end_of_run(int all_exited);
 void ext4_wait_enter(struct rthr *th);
 int ext4_quiesce_progress(void);
+int ext4_pump_kick(struct rthr *th, int id);
 void ext4_stream_fill(int chan, unsigned char *buf, long n);
 void ext4_stream_written(int chan, long n);
 void ext4_stream_verify(int chan, const unsigned char *buf, long n);
